@@ -327,16 +327,11 @@ Section Transforms.
                    upd_tree (fun t => add_children t [Elem o n_transition [(a_classes, [v_footnotes])] []])
               else tret tt
           end) ;;
-    let keys := map (fun lf => int_of_label (fst lf)) labelled in
-    let all_int := forallb (fun k => match k with Some _ => true | None => false end) keys in
-    let none_int := forallb (fun k => match k with Some _ => false | None => true end) keys in
-    sorted <~
-      (if all_int
-       then tret (map snd (sort_by (map (fun lf => (match int_of_label (fst lf) with Some k => k | None => 0 end,
-                                                   snd lf)) labelled)))
-       else if none_int
-       then tret (map snd (fold_left (fun acc lf => insert_str (fst lf) (snd lf) acc) labelled []))
-       else tfail (EPy TypeError)) ;;
+    (* sorted(key = (0, int(label)) or (1, label)): integer labels first by value, then the others by text *)
+    let ints := flat_map (fun lf => match int_of_label (fst lf) with Some k => [(k, snd lf)] | None => [] end) labelled in
+    let strs := flat_map (fun lf => match int_of_label (fst lf) with Some _ => [] | None => [lf] end) labelled in
+    let sorted := map snd (sort_by ints)
+                  ++ map snd (fold_left (fun acc lf => insert_str (fst lf) (snd lf) acc) strs []) in
     tfor sorted (fun fn =>
       n <~ node_of fn ;;
       _ <~ upd_tree (remove_oid fn) ;;
